@@ -19,11 +19,12 @@ def main():
     chk = Check("C03", "exploration")
     assert_repo()
     run_matrix(chk, props=("C03",), sampler="ins", timeout=240, post=post,
-               deciding=["C03.sample_set_checks", "C03.density_cells_reevaluated"],
+               deciding=["C03.sample_set_checks", "C03.density_cells_reevaluated", "C03.held_density_function_cells"],
                rule="real importance-nested-sampler runs over the INS matrix (flow types, logit/none reparameterisation, clip, strict/soft threshold, replace-all, "
                     "constant/variable draws, with/without the independent set, threshold methods, 1-2 checkpoint/resume cycles with and without saved density "
                     "tables); after update_evidence in every iteration, after finalise and right after resume every stored per-proposal density is re-evaluated "
-                    "from the saved flows with an independent logit/Jacobian, mixture weights are recomputed from the data, and logQ/logW/logU/logL are compared. "
+                    "from the saved flows with an independent logit/Jacobian, the density function handed out by get_proposal_log_prob while a proposal was the newest is called again "
+                    "after later proposals were added and compared with that proposal's density, mixture weights are recomputed from the data, and logQ/logW/logU/logL are compared. "
                     "Non-trivial = run in which at least one sample set was re-evaluated; distinct by (cell, seed, resumed).")
 
 
